@@ -562,8 +562,35 @@ def run_monitored(job):
             return None
         root = el.getroottree().getroot()
         return [{"role": "/part", "err": xsd.errors(etree.fromstring(etree.tostring(root)))}]
+
+    def c14n():
+        # the part's XML up to empty, attribute-less elements (the same equivalence C12 states): a setter may leave an empty
+        # formatting container behind when the value is refused; an attribute, text or a non-empty element is "something written"
+        from mbt.drive import readonly as RO
+        el = elem_of(obj)
+        if el is None:
+            return None
+        root = etree.fromstring(etree.tostring(el.getroottree().getroot()))
+        RO._strip_empty(root)
+        return etree.tostring(root, method="c14n")
+    def attrs():
+        # every attribute of the part as (element tag, attribute, value), with multiplicity; text nodes as (tag, "#text", text)
+        import collections
+        el = elem_of(obj)
+        c = collections.Counter()
+        if el is None:
+            return c
+        for e in el.getroottree().getroot().iter():
+            if isinstance(e.tag, str):
+                for k, v in e.attrib.items():
+                    c[(e.tag, k, v)] += 1
+                if (e.text or "").strip():
+                    c[(e.tag, "#text", e.text)] += 1
+        return c
     out = "ok"
     base = None
+    xml_before = None
+    attrs_before = None
     for i, a in enumerate(acts):
         pr = props[a["p"] - 1]
         try:
@@ -575,6 +602,8 @@ def run_monitored(job):
             base = verdict()
             if base is None:
                 return None
+            xml_before = c14n()
+            attrs_before = attrs()
         try:
             set_prop(obj, pr["p"], val)
         except Exception as e:      # noqa: BLE001
@@ -589,7 +618,8 @@ def run_monitored(job):
     if after is None:
         return None
     return {"id": tid, "base": base, "steps": [{"op": "prop.set" if out == "ok" else "reject.attr", "out": out, "parts": after}], "final": after,
-            "unexpected": []}
+            "unexpected": [], "xmlSame": xml_before == c14n(),
+            "lost": sorted("%s@%s" % (t.split("}")[-1], a) for (t, a, v), n in (attrs_before - attrs()).items())}
 
 
 # ------------------------------------------------------------------------------------------------ corpus objects
